@@ -30,7 +30,7 @@ for prop in props:
                      "confirmed": conf,
                      "what_i_ran": "tools/confirm_mutant.sh: scratch worktree of /repo; demo exits 0 on the clean tree and non-zero with the patch; "
                                    "tools/baseline_check.py with the patch applied reproduces all 339 baseline passes"})
-        check_prop = {"C10-m2": "C14", "C07-m3": "C18", "C10-m3": "C16", "C10-m4": "C02"}.get(sid, prop)      # a change may be caught by another property's check
+        check_prop = {"C10-m2": "C14", "C07-m3": "C18", "C10-m3": "C16", "C10-m4": "C02", "C02-m8": "C09", "C05-m7": "C04", "C10-m6": "C14", "C11-m1": "C02"}.get(sid, prop)      # a change may be caught by another property's check
         if run and prop in claimed:
             r = subprocess.run(["git", "-C", "/repo", "apply", os.path.join(out, "patch.diff")], capture_output=True, text=True)
             if r.returncode != 0:
